@@ -538,6 +538,11 @@ func (ex *Exec) applyContract(ct *Contract, key string, sig *types.Signature, na
 	}
 	baseLen := len(c.script)
 	for _, en := range ct.Ensures {
+		if strings.Contains(en.Text, "called(") || strings.Contains(en.Text, "resultof(") || strings.Contains(en.Text, "local(") {
+			// a postcondition about the callee's own call events / locals says nothing a caller can use
+			// (and must not be read against the caller's call counters)
+			continue
+		}
 		if en.Assumed {
 			c.trust(fmt.Sprintf("%s: postcondition %q is an assumption about a dependency (assumed-ensures)", key, en.Text))
 		}
@@ -767,9 +772,32 @@ func (ex *Exec) havocForCall(callee *ssa.Function, args []Val, p token.Pos) {
 			// a library function that is handed a function value runs it (filepath.WalkDir, strings.Map, ...):
 			// the callback may write every variable it captured and anything reachable from them, so the
 			// call is not pure for the caller even though the library function itself touches nothing
-			c.note("%s: call of %s receives a function value: the callback may run, heap havoc'd", ex.fn.Name(), callee.String())
-			c.heapHavocAll(ex.st)
-			ex.bumpAlloc()
+			known := true
+			ms := newModSet()
+			for _, a := range args {
+				if a.Ty == nil {
+					continue
+				}
+				if _, isFn := a.Ty.Underlying().(*types.Signature); !isFn {
+					continue
+				}
+				if a.Fn == nil || len(a.Fn.Blocks) == 0 {
+					known = false
+					break
+				}
+				ms.union(w.modOfRec(a.Fn, 1, map[*ssa.Function]bool{}))
+			}
+			if known {
+				// every callback is a statically known function: the call modifies what those functions may modify
+				c.note("%s: call of %s runs the function value it is handed: its inferred frame is havoc'd", ex.fn.Name(), callee.String())
+				ms.register(c)
+				ex.applyMods(ms, "callback of "+callee.String())
+				ex.bumpAlloc()
+			} else {
+				c.note("%s: call of %s receives a function value: the callback may run, heap havoc'd", ex.fn.Name(), callee.String())
+				c.heapHavocAll(ex.st)
+				ex.bumpAlloc()
+			}
 		}
 		ex.flushPendingHavoc()
 		return
